@@ -15,6 +15,12 @@ claim("C02",
  "DESIGN.md 6/C02, 4.1",
  "ODS width 2. Not covered: the cached-node proof producer (share/ipld, eds/proofs_cache.go).")
 
+claim("C06",
+ "Bounded exploration, by symbolic execution of the real getter code, of every fault sequence within the bound: the real shrex getter (GetSamples with its errgroup, GetRow, executeRequest) with up to 3 attempts per request, each attempt's outcome arbitrary (deadline, cancel, NOT_FOUND, resource exhausted, invalid response, other, or a decoded response that does / does not verify), the caller's context ending after any attempt and peer selection failing: every non-empty container in the returned value - with or without an error - verified; success means every requested item; all-NOT_FOUND is reported as shwap.ErrNotFound. RangeNamespaceData.ReadFrom into a reused value equals decoding into a fresh one for all pairs of 1..3-row responses (symbolic proof ranges). The cascade returns the first error-free result and never data next to an error. Fetch does not panic with either block store a node type wires it to (plain store / real EDS-store-backed Blockstore).",
+ "symbolic execution of go/ssa with fault outcomes as explored decisions (goroutines under the cooperative scheduler); SMT for the symbolic parts (proof ranges, response bytes)",
+ "DESIGN.md 6/C06",
+ "Client.Get, peer selection and the containers' Verify are models (C01 covers the real verifiers). Not covered: GetEDS/GetNamespaceData/GetRangeNamespaceData flows of the shrex getter beyond the shared executeRequest, real libp2p/bitswap.")
+
 claim("C09",
  "Bounded symbolic model checking of the real shrex stream handler (streamHandler, handleDataRequest, respondStatus, every request id's ReadFrom/Validate/ResponseSize/ResponseReader and the eds bounds-validation wrapper) for all five request types on an ARBITRARY request byte string (size-1..size+1 symbolic bytes), stored square width 2/4/8, block held / not held / store error, failing memory reservation and failing writes: never a panic; the accessor is closed exactly once iff it was obtained; memory is released iff reserved, same non-negative amount; truncated or invalid requests are reset without a status and without touching the store; a height that is not held is answered NOT_FOUND; out-of-bounds coordinates end in an error status and the inner accessor only ever sees in-bounds arguments.",
  "symbolic execution of go/ssa + SMT over arbitrary request bytes; stream/scope/store/accessor are recording models",
